@@ -226,6 +226,13 @@ def failing_theorems(pid, log):
 
 # ---------------------------------------------------------------------------------------------- pipeline
 
+def _limit_memory():
+    """hard address-space limit for the harness process: a runaway allocation in the code under test (an endless loop that
+    keeps appending) ends in a Go `fatal error: out of memory`, i.e. a process death that run_scripts localises"""
+    import resource
+    resource.setrlimit(resource.RLIMIT_AS, (12 << 30, 12 << 30))
+
+
 def _harness(pid, scripts, src, ann, append=False, timeout=600):
     with open(src, "w") as f:
         for sc in scripts:
@@ -235,7 +242,7 @@ def _harness(pid, scripts, src, ann, append=False, timeout=600):
     with open(src) as fin, open(ann, "a" if append else "w") as fout:
         try:
             p = subprocess.run([HARNESS, "run", pid], stdin=fin, stdout=fout, stderr=subprocess.PIPE, text=True, timeout=timeout,
-                               env=dict(os.environ, GOMEMLIMIT="4GiB"))
+                               env=dict(os.environ, GOMEMLIMIT="4GiB"), preexec_fn=_limit_memory)
             return p.returncode, p.stderr
         except subprocess.TimeoutExpired:
             return -9, "harness timed out (possible non-termination in the implementation)"
@@ -254,7 +261,9 @@ def run_scripts(pid, scripts, tag="main"):
     open(ann, "w").close()
     while start < len(scripts):
         part = os.path.join(wd, tag + ".part.ann")
-        rc, err = _harness(pid, scripts[start:], src, part, timeout=120 if len(crashed) else 900)
+        # normal throughput is > 10k lines/s; allow 500 lines/s (and 30 s) before calling it a hang
+        nlines = sum(len(sc) + 1 for sc in scripts[start:])
+        rc, err = _harness(pid, scripts[start:], src, part, timeout=max(30, 15 + nlines // 500))
         text = open(part).read()
         if rc == 0:
             open(ann, "a").write(text)
